@@ -32,7 +32,30 @@ out.append('## 13. Seeded changes (%d confirmed) and which check catches them\n'
 out.append('Each change was written by a fresh sub-agent that saw only the property text and a scratch worktree; I confirmed '
            'each in a scratch worktree of my own (demo passes on HEAD, fails with the patch, the 759 baseline tests still pass) '
            'with `tools/seed_verify.py` before keeping it. `caught` = the owning property\'s check exits 1 against the change.\n')
-out.append('| seed | property | what it changes / needs | quick | thorough | killing signatures |\n|---|---|---|---|---|---|')
+NOTES = json.load(open(os.path.join(ROOT, 'tools', 'seed_notes.json'))) if os.path.exists(os.path.join(ROOT, 'tools', 'seed_notes.json')) else {}
+rounds = {}
+for mpath in seeds:
+    m = json.load(open(mpath))
+    name = os.path.basename(os.path.dirname(mpath))
+    rnd = name.rsplit('-r', 1)[1] if '-r' in name else '1'
+    pid = m.get('property')
+    hist = m.get('checks_history', [])
+    now = m.get('checks', {})
+    first = hist[0] if hist else now
+    caught = lambda ch: any(v.get('rc') == 1 for k, v in ch.items() if k.startswith(pid))
+    anyc = lambda ch: any(v.get('rc') == 1 for v in ch.values())
+    r = rounds.setdefault(rnd, {'n': 0, 'first': 0, 'now': 0, 'cross': 0})
+    r['n'] += 1
+    r['first'] += caught(first)
+    r['now'] += caught(now)
+    r['cross'] += (not caught(now)) and anyc(now)
+out.append('| round | confirmed changes | caught by the owning check when first run | caught by the owning check now | caught only by another property\'s check |\n|---|---|---|---|---|')
+for rnd in sorted(rounds):
+    r = rounds[rnd]
+    out.append('| %s | %d | %d | %d | %d |' % (rnd, r['n'], r['first'], r['now'], r['cross']))
+out.append('\nEvery miss was turned into a generator / oracle extension (last column) - never into a special case for the change; the '
+           'extension was first run on the unchanged tree at seeds 1-3 (quiet, or a genuine defect: F43 and F44 were found this way).\n')
+out.append('| seed | property | what it changes / needs | quick | thorough | killing signatures | strengthened |\n|---|---|---|---|---|---|---|')
 for mpath in seeds:
     m = json.load(open(mpath))
     name = os.path.basename(os.path.dirname(mpath))
@@ -51,8 +74,8 @@ for mpath in seeds:
         first = ' **[first run: quick %s%s; check strengthened afterwards]**' % (
             {0: 'MISSED', 1: 'caught'}.get(fq.get('rc'), '?'), (', thorough %s' % {0: 'MISSED', 1: 'caught'}.get(ft.get('rc'), '?')) if ft else '')
     desc = (m.get('summary', '') + ' / needs: ' + m.get('needs', '')).replace('|', '\\|').replace('\n', ' ')[:330] + first
-    out.append('| %s | %s | %s | %s | %s | %s%s |' % (name, pid, desc, verdict(q), verdict(t), '; '.join('`%s`' % s for s in sigs).replace('|', '\\|'),
-                                                   (' (also caught by ' + ','.join(sorted(set(others))) + ')') if others else ''))
+    out.append('| %s | %s | %s | %s | %s | %s%s | %s |' % (name, pid, desc, verdict(q), verdict(t), '; '.join('`%s`' % s for s in sigs).replace('|', '\\|'),
+                                                        (' (also caught by ' + ','.join(sorted(set(others))) + ')') if others else '', NOTES.get(name, '')))
 out.append('')
 mr = os.path.join(ROOT, 'tools', 'mutants_result.json')
 if os.path.exists(mr):
